@@ -116,6 +116,18 @@ type UnitGen struct {
 	loopFrames  int
 	newNames    map[string]bool
 	pure        int
+	selfForCall *Val
+	keyType     map[string]types.Type
+	mapKeyType  map[string]types.Type
+	quantified  bool
+	pendingAxioms []pendingAxiom
+	postAxioms    []pendingAxiom
+	postTyped     []typedVal
+	typedFresh    []typedVal
+	loadLog       map[string]loadedArr
+	axiomDone     map[string]bool
+	assertDone  map[string]bool
+	assertCtr   map[string]int
 }
 
 func (u *UnitGen) freshName(base string) string {
@@ -142,7 +154,17 @@ func (u *UnitGen) havoc(base string, so Sort) Term {
 	}
 	n := u.freshName(base)
 	u.emit(Event{Kind: EvConst, Name: n, Sort: so})
-	return Term{n, so}
+	t := Term{n, so}
+	u.nilMapFact(t)
+	return t
+}
+
+// nilMapFact: a fresh map-domain array maps the nil map to the empty domain.
+func (u *UnitGen) nilMapFact(t Term) {
+	s := string(t.Sort)
+	if strings.HasPrefix(s, "(Array Int (Array ") && strings.HasSuffix(s, " Bool))") {
+		u.assumeRaw(Eq(Select(t, IntN(0)), ConstArray(elemSort(t.Sort), TFalse)))
+	}
 }
 
 // define names a term (keeps formulas linear in size).
@@ -223,6 +245,10 @@ func (u *UnitGen) get(st *State, key string, so Sort) Term {
 		u.initEv = append(u.initEv, Event{Kind: EvConst, Name: n, Sort: so})
 		t := Term{n, so}
 		u.init[ikey] = t
+		u.heapAxiom(st, key, t)
+		if strings.HasPrefix(key, "MD:") {
+			u.initEv = append(u.initEv, Event{Kind: EvAssume, Term: Eq(Select(t, IntN(0)), ConstArray(elemSort(so), TFalse))})
+		}
 		return t
 	}
 	if strings.HasPrefix(key, "LK:") {
@@ -239,6 +265,12 @@ func (u *UnitGen) get(st *State, key string, so Sort) Term {
 	u.initEv = append(u.initEv, Event{Kind: EvConst, Name: n, Sort: so})
 	t := Term{n, so}
 	u.init[key] = t
+	if key != "top" {
+		u.heapAxiom(st, key, t)
+	}
+	if strings.HasPrefix(key, "MD:") {
+		u.initEv = append(u.initEv, Event{Kind: EvAssume, Term: Eq(Select(t, IntN(0)), ConstArray(elemSort(so), TFalse))})
+	}
 	return t
 }
 
@@ -384,11 +416,54 @@ func (u *UnitGen) merge(label string, ins []edgeState) *State {
 func (u *UnitGen) fieldKey(structT types.Type, i int) (string, Sort) {
 	st := structT.Underlying().(*types.Struct)
 	f := st.Field(i)
-	return fmt.Sprintf("H:%s.%s", shortTypeName(structT), f.Name()), ArraySort(SInt, u.g.reg.SortOf(f.Type()))
+	k := fmt.Sprintf("H:%s.%s", shortTypeName(structT), f.Name())
+	u.keyType[k] = f.Type()
+	return k, ArraySort(SInt, u.g.reg.SortOf(f.Type()))
 }
 
 func (u *UnitGen) cellKey(t types.Type) (string, Sort) {
-	return "C:" + shortTypeName(t), ArraySort(SInt, u.g.reg.SortOf(t))
+	k := "C:" + shortTypeName(t)
+	u.keyType[k] = t
+	return k, ArraySort(SInt, u.g.reg.SortOf(t))
+}
+
+// heapAxiom states that every element of a heap array is a well-typed value of its Go
+// type (ranges of integers, pointers below the allocation frontier). It is emitted only
+// in units whose contracts quantify, where per-term facts cannot reach bound variables.
+func (u *UnitGen) heapAxiom(st *State, key string, arr Term) {
+	if !u.quantified || u.pure > 0 {
+		return
+	}
+	ty, ok := u.keyType[key]
+	if !ok {
+		return
+	}
+	if u.axiomDone == nil {
+		u.axiomDone = map[string]bool{}
+	}
+	if u.axiomDone[arr.S] || strings.Contains(arr.S, " ") {
+		return
+	}
+	u.axiomDone[arr.S] = true
+	if strings.HasPrefix(key, "MV:") {
+		ks := keySort(elemSort(arr.Sort))
+		el := Term{fmt.Sprintf("(select (select %s hx_r) hx_k)", arr.S), elemSort(elemSort(arr.Sort))}
+		f := u.typeFacts(st, el, ty)
+		if f.S == "true" {
+			return
+		}
+		u.assumeRaw(Term{fmt.Sprintf("(forall ((hx_r Int) (hx_k %s)) (! %s :pattern (%s)))", ks, f.S, el.S), SBool})
+		return
+	}
+	if !strings.HasPrefix(key, "H:") && !strings.HasPrefix(key, "C:") {
+		return
+	}
+	el := Term{fmt.Sprintf("(select %s hx_r)", arr.S), elemSort(arr.Sort)}
+	f := u.typeFacts(st, el, ty)
+	if f.S == "true" {
+		return
+	}
+	u.assumeRaw(Term{fmt.Sprintf("(forall ((hx_r Int)) (! %s :pattern (%s)))", f.S, el.S), SBool})
 }
 
 func (u *UnitGen) mapKeys(mt types.Type) (dk, vk string, ds, vs Sort) {
@@ -396,6 +471,9 @@ func (u *UnitGen) mapKeys(mt types.Type) (dk, vk string, ds, vs Sort) {
 	ks := u.g.reg.SortOf(m.Key())
 	es := u.g.reg.SortOf(m.Elem())
 	n := shortTypeName(mt.Underlying())
+	u.keyType["MV:"+n] = m.Elem()
+	u.mapKeyType["MV:"+n] = m.Key()
+	u.mapKeyType["MD:"+n] = m.Key()
 	return "MD:" + n, "MV:" + n, ArraySort(SInt, ArraySort(ks, SBool)), ArraySort(SInt, ArraySort(ks, es))
 }
 
@@ -600,13 +678,29 @@ func (u *UnitGen) load(st *State, a *Addr) Term {
 			return App(si.sort, si.ctor, args...)
 		}
 		k, so := u.fieldKey(a.objT, a.path[0].field)
-		return u.loadPath(Select(u.get(st, k, so), a.ref), a.path[1:])
+		arr := u.get(st, k, so)
+		u.logLoad(k, arr)
+		return u.loadPath(Select(arr, a.ref), a.path[1:])
 	}
 	if isOpaqueStruct(a.objT) {
 		return IntN(0)
 	}
 	k, so := u.cellKey(a.objT)
-	return u.loadPath(Select(u.get(st, k, so), a.ref), a.path)
+	arr := u.get(st, k, so)
+	u.logLoad(k, arr)
+	return u.loadPath(Select(arr, a.ref), a.path)
+}
+
+type loadedArr struct {
+	key string
+	arr Term
+}
+
+// logLoad records heap arrays read while a quantified contract expression is evaluated.
+func (u *UnitGen) logLoad(key string, arr Term) {
+	if u.loadLog != nil {
+		u.loadLog[arr.S] = loadedArr{key, arr}
+	}
 }
 
 
@@ -646,4 +740,10 @@ func (u *UnitGen) store(st *State, a *Addr, v Term) {
 	arr := u.get(st, k, so)
 	u.markStore(k, a.ref)
 	u.setDef(st, k, Store(arr, a.ref, u.storePath(Select(arr, a.ref), a.path, v)))
+}
+
+type typedVal struct {
+	key  string
+	v    Term
+	elem bool
 }
